@@ -1026,7 +1026,7 @@ def check_C14(res):
     cls = {c['name']: c for c in summary['classes']}
     exe = pipe.harness('codec_harness', ['codec_harness.cpp'])
     drv = lib.driver_exe()
-    if exe is None or not os.path.exists(drv):
+    if exe is None:
         return finish_codec(res)
     import codecgen
     rng = random.Random(lib.seed() * 131 + 9)
@@ -1034,9 +1034,11 @@ def check_C14(res):
     base = []
     names = [c['name'] for c in summary['classes'] if c['name'] != 'LogContainer']
     nper = 2 if res.tier == 'quick' else 12
+    sus = suspect_classes(summary, regres)
+    res.corr['suspect_classes'] = sus
     for n in names:
         base.append((n, {}))
-        for _ in range(nper):
+        for _ in range(nper + (60 if n in sus else 0)):      # (a class about which an obligation broke on this run is searched harder)
             base.append((n, g.obj(n, 'payload')))
     outs = {}
     runs = 0
@@ -1044,8 +1046,9 @@ def check_C14(res):
         reqs = []
         for pat in (0x00, 0xAA, 0xFF):
             for n, a in base:
-                reqs.append('encp %d %s %s' % (pat, n, ' '.join('%d=%s' % (i, b.hex()) for i, b in sorted(a.items()))))
-        imp, rc, err = lib.session(exe, reqs, env={'ASAN_OPTIONS': 'detect_leaks=0:allocator_may_return_null=1:malloc_fill_byte=%s:max_malloc_fill_size=1048576' % fill})
+                # (objects of a suspect class are encoded in a child process: an encoder that leaves its containers aborts under ASan)
+                reqs.append('%sencp %d %s %s' % ('!' if n in sus else '', pat, n, ' '.join('%d=%s' % (i, b.hex()) for i, b in sorted(a.items()))))
+        imp, rc, err = lib.session_resilient(exe, reqs, env={'ASAN_OPTIONS': 'detect_leaks=0:allocator_may_return_null=1:malloc_fill_byte=%s:max_malloc_fill_size=1048576' % fill})
         if len(imp) != len(reqs):
             res.oblige('D:harness-session', False, '%d answers for %d requests %s' % (len(imp), len(reqs), err[-500:]))
             return finish_codec(res)
@@ -1053,6 +1056,10 @@ def check_C14(res):
         for k, (r, b) in enumerate(zip(reqs, imp)):
             res.corr['requests'] += 1
             key = k % len(base)
+            if b.startswith('crash'):
+                res.violation('nondeterministic', '%s: encoding the object aborts under the sanitizers (%s): the bytes written come from outside the object' % (base[key][0], b[:40]),
+                              {'class': base[key][0], 'failure': 'encoder-reads-outside-object', 'request': r.lstrip('!')})
+                continue
             d = parse_kv(b)
             outs.setdefault(key, set()).add((d.get('halt'), d.get('out')))
     res.corr['programs'] = len(names)
@@ -1075,7 +1082,7 @@ def check_C14(res):
     file_determinism(res, pipe, summary, rng)
     # correspondence of the model itself: model encodings equal the implementation's for determined classes
     reqs = ['enc %s %s' % (n, ' '.join('%d=%s' % (i, b.hex()) for i, b in sorted(a.items()))) for n, a in base]
-    mod, rc, err = lib.session(drv, reqs)
+    mod, rc, err = lib.session(drv, reqs) if lib.model_ok() else ([], 0, '')
     imp, rc, err = lib.session(exe, reqs)
     if len(mod) == len(reqs) == len(imp):
         dis = compare_codec(res, reqs, mod, imp, summary)
@@ -1591,6 +1598,11 @@ def check_C01(res):
     sus = suspect_classes(summary, regres)
     res.corr['suspect_classes'] = sus
     cases = fc.gen_cases(summary, rng, res.tier, classes, [c for c in exact if c in classes], ncases, suspects=sus)
+    # an application that takes its time: more than a second between open() and the first write() and between two writes
+    for c in [c for c in cases if len(c.objs) >= 2][:2]:
+        c2 = fc.Case(c.level, c.cs, c.rp, c.objs, c.hdr)
+        c2.pause = 4
+        cases.append(c2)
     out = fc.run_cases(pipe, res, cases, fexe, cexe)
     if out is None:
         return finish_codec(res)
@@ -1725,6 +1737,12 @@ def check_C04(res):
     for c in base:
         for lv, cs in ((0, 7), (9, 4096), (5, 64)):
             cases.append(fc.Case(lv, cs, not c.rp, c.objs, c.hdr))
+    # the level assigned to the public member right after open(), and a File destroyed without an explicit close(): the finished
+    # file must be what the configuration at the time of writing says, with every object in it
+    for c in cases[20:40]:
+        if c.objs:
+            cases.append(fc.Case(c.level, c.cs, c.rp, c.objs, c.hdr, open_level=rng.choice([x for x in (0, 1, 6, 9) if x != c.level])))
+            cases.append(fc.Case(c.level, c.cs, c.rp, c.objs + c.objs + c.objs, c.hdr, noclose=True))
     out = fc.run_cases(pipe, res, cases, fexe, cexe)
     if out is None:
         finish_codec(res)
@@ -2637,7 +2655,8 @@ def check_sched(res, prop):
         big = [('large-object-default-container', 'level=1 cs=131072 rp=1', [300000]),
                ('container-above-buffer', 'level=1 cs=200000 rp=1', [150000, 150000]),
                ('large-object-small-container', 'level=0 cs=4096 rp=0', [600000]),
-               ('container-equal-buffer', 'level=6 cs=131072 rp=1', [131072, 1, 131071])]
+               ('container-equal-buffer', 'level=6 cs=131072 rp=1', [131072, 1, 131071]),
+               ('zlib-default-compression-level', 'level=-1 cs=131072 rp=1', [150000, 150000, 150000])]
         env = dict(fc.fenv()); env['VERIF_WATCHDOG_S'] = '25'; env['VERIF_CAP'] = str(256 << 20)
         for name, opts, sizes in big:
             rq = 'writefile %s %s' % (opts, ' '.join(';; AppText %d=%s' % (ti, '61' * n) for n in sizes))
@@ -2869,6 +2888,8 @@ def check_C12(res):
                (3000, 262144, 20, 2000, (3, 12, 36)), (40000, 524288, 4, 2000, (3, 10, 24))]
     # long runs of objects of a type the reader does not know (a file of a newer tool version): skipped, not delivered
     configs += [(200, 4096, 0, 0, (4, 32, 256), 1000000), (3000, 16384, 0, 0, (4, 32, 128), 50)]
+    # a damaged file (the parser gives up at the first object) that the application closes only 400 ms after it saw the end
+    configs += [(2000, 16384, 0, 0, (8, 64, 256), 0, 1)]
     if res.tier == 'thorough':
         configs += [(300000, 65536, 0, 0), (1000, 1048576, 0, 0, (4, 16, 64)), (60000, 4096, 0, 0), (200, 4096, 0, 0), (3000, 262144, 0, 0, (4, 16, 64, 128))]
     reqs = []
@@ -2877,11 +2898,12 @@ def check_C12(res):
         (payload, cs, stall_every, stall_us) = cfg[:4]
         per_obj = payload + 48
         unk = cfg[5] if len(cfg) > 5 else 0
+        dmg = cfg[6] if len(cfg) > 6 else 0
         for ncont in (cfg[4] if len(cfg) > 4 else (4, 32, 256) if res.tier == 'quick' else (4, 16, 64, 256, 1024)):
             n = max(1, (ncont * cs) // per_obj)
             for rep in range(2):
-                reqs.append('heap %d %d %d %d %d %d %d' % (n, payload, cs, 0 if payload > 1000 else 1, stall_every, stall_us, unk))
-                meta.append((payload, cs, stall_every + 1000 * unk, ncont, n))
+                reqs.append('heap %d %d %d %d %d %d %d %d' % (n, payload, cs, 0 if (payload > 1000 or dmg) else 1, stall_every, stall_us, unk, dmg))
+                meta.append((payload, cs, stall_every + 1000 * unk + 7 * dmg, ncont, n))
     ans, rc, err = lib.psession(fexe, reqs, nproc=8, env=env, timeout=7200)
     if len(ans) != len(reqs):
         res.oblige('D:heap-session', False, '%d answers for %d requests %s' % (len(ans), len(reqs), err[-400:]))
@@ -2985,8 +3007,10 @@ def check_C13(res):
             if dis <= 10:
                 px, py = x.split(' | '), y.split(' | ')
                 k = next((i for i in range(min(len(px), len(py))) if px[i] != py[i]), min(len(px), len(py)))
-                res.violation('model-vs-implementation', 'API history: implementation and reference state machine differ at step %d (%s vs %s)' % (k, px[k] if k < len(px) else None, py[k] if k < len(py) else None),
-                              {'history': ' '.join(ops), 'objects_in_file': n, 'impl': x[:1500], 'model': y[:1500]})
+                # the reference state machine IS the documented behaviour (is_open/good/eof after every step, what read() returns,
+                # what is left after destruction): a history on which the implementation differs from it is a failing history
+                res.violation('lifecycle', 'API history: the implementation differs from the documented state machine at step %d (%s vs %s)' % (k, px[k] if k < len(px) else None, py[k] if k < len(py) else None),
+                              {'class': 'File', 'failure': 'state-differs-from-documented', 'history': ' '.join(ops), 'objects_in_file': n, 'impl': x[:1500], 'model': y[:1500]})
         # property oracle on the implementation
         d = kv(x.split(' | ')[-1]) if 'leak=' in x else {}
         if 'leak' not in d:
